@@ -267,6 +267,9 @@ impl World {
 		}
 		for i in 0..self.nodes.len() {
 			for rec in self.nodes[i].persist.take_log() {
+				if rec.steps.iter().any(|s| s.name == "ChannelForceClosed" || s.name == "PaymentPreimage") {
+					self.nodes[i].mon_dirty.set(true);
+				}
 				let e = self.live_ids[i].entry(rec.chan).or_insert(0);
 				*e = (*e).max(rec.monitor_update_id);
 				recs.push((rec.seq, Obs::Persist { node: i, rec }));
@@ -432,6 +435,7 @@ impl World {
 			Ok(())
 		});
 		// the chain monitor's own events (SpendableOutputs, BumpTransaction)
+		self.nodes[n].mon_dirty.set(false);
 		let mon_evs = std::cell::RefCell::new(Vec::new());
 		self.nodes[n].mon.process_pending_events(&|e: Event| -> Result<(), ReplayEvent> {
 			mon_evs.borrow_mut().push(e);
@@ -532,6 +536,9 @@ impl World {
 			self.nodes[n].cm.blocks_disconnected(loc);
 			self.synced[n].truncate(common);
 		}
+		if common < self.chain.blocks.len() {
+			self.nodes[n].mon_dirty.set(true);
+		}
 		for h in common..self.chain.blocks.len() {
 			let b = &self.chain.blocks[h];
 			self.nodes[n].mon.block_connected(b, h as u32);
@@ -551,6 +558,22 @@ impl World {
 	pub fn sync_all(&mut self) {
 		for i in 0..self.nodes.len() {
 			self.sync_node(i);
+		}
+	}
+
+	/// Settling phase: every user handles its events promptly after each block.
+	pub fn handle_all_events(&mut self, skip: &[bool]) {
+		for _ in 0..4 {
+			let mut any = false;
+			for i in 0..self.nodes.len() {
+				if !skip.get(i).copied().unwrap_or(false) && self.nodes[i].has_events() {
+					self.handle_events(i);
+					any = true;
+				}
+			}
+			if !any {
+				break;
+			}
 		}
 	}
 
